@@ -20,13 +20,13 @@ type PopMode struct {
 }
 
 type Pop struct {
-	c        *Ctx
-	mode     PopMode
-	live     []*BM
-	names    []int
-	nextName int
-	lastOp   string
-	h        uint64
+	c            *Ctx
+	mode         PopMode
+	live         []*BM
+	names        []int
+	nextName     int
+	lastOp       string
+	h            uint64
 	pendingProbe *aliasSuspect
 }
 
